@@ -1412,15 +1412,51 @@ func rulePublishWaitsForTheMessagesOwnStream(c *eng.Ctx) {
 	if ps == nil {
 		return
 	}
+	isMsgStream := func(v ssa.Value) bool {
+		f, _ := eng.FieldRead(eng.Strip(v))
+		return f != nil && f.Name() == "Stream"
+	}
+	named := func(n string) bool { return strings.Contains(strings.ToLower(n), "stream") }
 	n := 0
 	for _, fn := range c.P.Funcs {
 		for _, call := range eng.CallsIn(fn, "server.apiServer.publishSync") {
 			n++
+			// the values handed over: the arguments, and the fields of a parameter struct built for the call; the one that is
+			// the stream goes by the name of the parameter / field it lands in
+			var stream, all []ssa.Value
 			args := eng.AllArgs(call.Common())
+			callee := call.Common().StaticCallee()
+			for k, a := range args {
+				if _, isStr := a.Type().Underlying().(*types.Basic); isStr {
+					all = append(all, a)
+					if callee != nil && k < len(callee.Params) && named(callee.Params[k].Name()) {
+						stream = append(stream, a)
+					}
+					continue
+				}
+				var box ssa.Value = a
+				if ld, isLd := a.(*ssa.UnOp); isLd && ld.Op == token.MUL {
+					box = ld.X
+				}
+				if al, isAl := box.(*ssa.Alloc); isAl {
+					for _, st := range eng.FieldStores(fn, func(fa *ssa.FieldAddr) bool { return fa.X == ssa.Value(al) }) {
+						all = append(all, st.Val)
+						if named(eng.FieldNameOf(st.Addr.(*ssa.FieldAddr))) {
+							stream = append(stream, st.Val)
+						}
+					}
+				}
+			}
 			ok := false
-			if len(args) >= 4 {
-				f, _ := eng.FieldRead(eng.Strip(args[3]))
-				ok = f != nil && f.Name() == "Stream"
+			if len(stream) > 0 {
+				ok = true
+				for _, v := range stream {
+					ok = ok && isMsgStream(v)
+				}
+			} else {
+				for _, v := range all {
+					ok = ok || isMsgStream(v)
+				}
 			}
 			c.Check(ok, "publishSync is told the stream of the message it publishes", c.Pos(call.(ssa.Instruction)), "publishSync(ctx, subject, msg.Stream, …)", ir.FuncKey(fn)+" hands publishSync a stream name that is not (always) the published message's Stream: with \"\" any ack on the inbox completes the publish — when a second stream is attached to the subject (the activity subject included) its ack stands in for a message this stream never stored")
 		}
